@@ -363,6 +363,32 @@ def run(case):
                         for call in ("vector(field)", "vector()"):
                             r2 = (load2.assemble.vector(field) if call == "vector(field)" else load2.assemble.vector()).toarray()[:, 0]
                             c.close(f"points={pts}/rowwise={vals.ndim == 2}/axisymmetric={axisym}/updates={useq}/{call}", "point load vector after update(): the last values (x 2 pi r if axisymmetric) at its dofs", r2, ref * useq[-1], max(np.abs(ref).max() * max(abs(useq[-1]), 1.0), 1e-12))
+        # `apply_on`: the load acts on another field of the container (a source on the pressure / volume-ratio field of a mixed
+        # container, on the second field of a two-field container): its values at that field's unknowns, zero everywhere else
+        conts = []
+        if mixed:
+            conts.append(("u,p,J", field))
+        else:
+            Fk = {"3d": fem.Field, "ps": fem.FieldPlaneStrain, "axi": fem.FieldAxisymmetric}[fk]
+            conts.append(("u,T", fem.FieldContainer([Fk(region, dim=nd), fem.Field(region, dim=1)])))
+            conts.append(("u,w", fem.FieldContainer([Fk(region, dim=nd), fem.Field(region, dim=nd)])))
+        for clab, cont in conts:
+            off = np.concatenate([[0], np.cumsum(cont.fieldsizes)])
+            for k_ in range(len(cont.fields)):
+                fk_ = cont.fields[k_]
+                npk = fk_.values.shape[0]
+                ptsk = [p_ for p_ in (0, 2, 3) if p_ < npk]
+                vk = (np.arange(1, len(ptsk) * fk_.dim + 1, dtype=float).reshape(len(ptsk), fk_.dim) / 3)
+                load = fem.PointLoad(cont, ptsk, values=vk, apply_on=k_)
+                r = load.assemble.vector(cont).toarray()[:, 0]
+                c.trans += 1
+                ref = np.zeros(int(off[-1]))
+                for j_, p_ in enumerate(ptsk):
+                    ref[off[k_] + fk_.dim * p_: off[k_] + fk_.dim * p_ + fk_.dim] = vk[j_]
+                if r.shape != ref.shape:
+                    c.bad(f"apply_on/{clab}/field{k_}/shape", "length of the point-load vector", list(r.shape), list(ref.shape))
+                    continue
+                c.close(f"apply_on/{clab}/field{k_}", "point load with apply_on: its values at the unknowns of THAT field, zero elsewhere", r, ref, np.abs(ref).max())
         return c.result(dict(case=case["key"], unknowns=int(N)))
     if kind == "constraints":
         mk, fk = case["mesh"], case["fk"]
